@@ -175,6 +175,22 @@ Theorem mutations_covered : forall adv hs E, mut_jwe hs E -> wf_jwe adv hs E.
 Proof. intros adv hs E. exact (mutations_covered_lemma adv hs E). Qed.
 Print Assumptions mutations_covered.
 
+(* Legacy (RFC 0019) ANONCRYPT against an outsider (guard [ct_ok]: the adversary knows no honest content key; anyone may
+   author an anoncrypt envelope, so the claim is about envelopes that carry an honest content key).  Whatever the
+   recipients array, sealed boxes, headers, iv and tag of E are: an accepted envelope has no sender, ToKey is a key of
+   the party, and either the payload is exactly an honest legacy anoncrypt envelope's and ToKey one of ITS recipient
+   keys, or the content key obtained from the sealed box is no honest envelope's (the adversary's own envelope).
+   No hypothesis on the sealed boxes is needed: a sealed box reveals only the key it carries, the AEAD with the
+   protected string as associated data does the rest. *)
+Theorem integrity_legacy_anoncrypt : forall hs party E m fr k,
+  ct_ok hs (le_ct E) ->
+  unpack Fixed LegAnon party (WLeg E) = Ok (m, fr, k) ->
+  fr = None /\ In k party /\
+  ((exists h, In h hs /\ packer_of (h_cfg h) = LegAnon /\ m = Bytes (h_payload h) /\ In k (h_rcpts h)) \/
+   (exists t cek, seal_open k t = Some cek /\ forall h, In h hs -> cek <> cek_of (h_rnd h))).
+Proof. intros hs party E m fr k. exact (legacy_anon_lemma hs party E m fr k). Qed.
+Print Assumptions integrity_legacy_anoncrypt.
+
 (* HISTORICAL REFUTATION (before fix: 234874c).  The code as found unwrapped ECDH-ES keys although a sender key
    id was present: an outsider holding only the ephemeral key 200000 makes an envelope that the victim [2]
    unpacks as coming from the honest key 1.  The repaired decrypter rejects it. *)
